@@ -7,11 +7,11 @@ RB = '$' + 'B' * 40      # in the consensus
 RX = '$' + 'C' * 40      # NOT in the consensus
 LONG = {RA: RA + '~relaya', RB: RB + '=relayb', RX: RX + '~ghost'}
 
-C_LAUNCHED, C_EXT1, C_EXT2, C_BUILT, C_CLOSED, C_FAILED, C_BUILT_ALT = range(7)
+C_LAUNCHED, C_EXT1, C_EXT2, C_BUILT, C_CLOSED, C_FAILED, C_BUILT_ALT, C_EXT_BUILT = range(8)
 S_NEW, S_SENT1, S_SENT2, S_REMAP, S_SUCC, S_DETACH, S_CLOSED, S_FAILED, S_REMAP0 = range(9)
-NC = 7
+NC = 8
 NS = 9
-CNAMES = ['LAUNCHED', 'EXTENDED', 'EXTENDED', 'BUILT', 'CLOSED', 'FAILED', 'BUILT']
+CNAMES = ['LAUNCHED', 'EXTENDED', 'EXTENDED', 'BUILT', 'CLOSED', 'FAILED', 'BUILT', 'EXTENDED']
 SNAMES = ['NEW', 'SENTCONNECT', 'SENTCONNECT', 'REMAP', 'SUCCEEDED', 'DETACHED', 'CLOSED', 'FAILED', 'REMAP']
 
 
@@ -53,7 +53,8 @@ class TorModel(object):
                     return ev in (C_EXT2, C_BUILT, C_FAILED, C_BUILT_ALT)
                 return ev in (C_BUILT, C_FAILED, C_BUILT_ALT)
             if st == 'BUILT':
-                return ev == C_CLOSED
+                # C_EXT_BUILT: Tor cannibalises a built circuit and adds a hop: EXTENDED (with another purpose), then BUILT again
+                return ev == C_CLOSED or (ev == C_EXT_BUILT and len(c['path']) < 4)
             return False
         s = self.stream.get(oid)
         if s is None:
@@ -76,7 +77,10 @@ class TorModel(object):
         kind, oid, ev = self.decode(e)
         self.log = []
         if kind == 'C':
-            if ev in (C_LAUNCHED, C_EXT1):
+            if ev == C_EXT_BUILT:
+                kw = {'BUILD_FLAGS': 'NEED_CAPACITY', 'PURPOSE': 'HS_SERVICE_REND', 'HS_STATE': 'HSSR_CONNECTING',
+                      'TIME_CREATED': '2024-01-01T00:00:00.000000'}
+            elif ev in (C_LAUNCHED, C_EXT1):
                 # an onion-service client circuit in its early life: carries HS_STATE / REND_QUERY, which later events
                 # (after Tor re-purposed it to GENERAL) no longer repeat
                 kw = {'BUILD_FLAGS': 'NEED_CAPACITY', 'PURPOSE': 'HS_CLIENT_REND', 'HS_STATE': 'HSCR_CONNECTING',
@@ -99,6 +103,9 @@ class TorModel(object):
                 elif ev == C_BUILT:
                     c['path'] = c['path'] + [RB]
                     self.log = [('circuit_extend', oid, RB), ('circuit_built', oid)]
+                elif ev == C_EXT_BUILT:
+                    c['path'] = c['path'] + [RX]
+                    self.log = [('circuit_extend', oid, RX)]
                 elif ev == C_BUILT_ALT:
                     old = len(c['path'])
                     c['path'] = [RB, RA, RX][:max(old, 2)] if old < 3 else [RB, RA, RX]
